@@ -19,7 +19,7 @@ fuzz_target!(|data: &[u8]| {
     let r = match which() {
         "C02" => c02::C02.check(&c02::Case { lang: t.lang.into(), text: t.text.clone(), th_bits: t.th_bits, hints: t.hints.clone(), numberless: false }, &mut obs),
         "C06" => c06::C06.check(&c06::Case { lang: t.lang.into(), text: t.text.clone(), th_bits: t.th_bits, hints: t.hints.clone() }, &mut obs),
-        "C07" => c07::C07.check(&c07::Case { lang: t.lang.into(), text: t.text.clone(), th_bits: t.th_bits }, &mut obs),
+        "C07" => c07::C07.check(&c07::Case { lang: t.lang.into(), text: t.text.clone(), th_bits: t.th_bits, hints: t.hints.clone() }, &mut obs),
         _ => c03::C03.check(&c03::Case { lang: t.lang.into(), text: t.text.clone(), repeat: 1, th_bits: t.th_bits }, &mut obs),
     };
     if let Err(m) = r {
